@@ -20,6 +20,7 @@ after the `tag_name().unwrap()`; `level : Int`).  Here they are modelled EXPLICI
 import RioModel.Proofs.FilterTok
 import RioModel.Proofs.FilterUtf8
 import RioModel.Props.C16
+import RioModel.Proofs.FilterValid
 set_option linter.unusedSimpArgs false
 set_option linter.unusedVariables false
 
@@ -872,5 +873,36 @@ theorem split_off_in_range (d : Bytes) (n : Nat) (h : utf8Scan d = .incomplete n
   rcases j2 with ⟨hn, _⟩ | ⟨a, r, _, hbs, _, hn, _⟩
   · omega
   · subst hbs; simp at hn ⊢; omega
+
+/-! ### the `?` exits of `filter` / `append_child` / `prepend_child` other than the UTF-8 validation
+
+They are all `String::from_utf8` on a slice of the buffer handed to the tokenizer: `tokenizer.next()?` (the tag name in
+`read_start_tag`), `raw_as_string()?`, `buffered_as_string()?`, `tag_name()?`.  The buffer is always complete valid
+UTF-8: in `filter` it is the validated part of `last_buffer ++ input` (`validated_data`); in `append_child` /
+`prepend_child` it is a buffered element, valid by the invariant `HV` (`stage_strings_valid`: every `String` the stage
+builds — output, buffers — is valid).  On a valid buffer the conversions succeed under the tokenizer law `TokValid`
+(token boundaries are character boundaries): `raw_as_string_ok`, `buffered_as_string_ok`.  `next()` itself never
+returns `Err` on any input: `next_never_err` (C16). -/
+
+theorem validated_data {x data pending : Bytes} (h : utf8Split x = some (data, pending)) : V data :=
+  V_utf8Split h
+
+theorem raw_as_string_ok {tk : Tokenize} (hv : TokValid tk) {d : Bytes} (hd : V d) : ∀ t ∈ (tk d).1, V t.raw :=
+  hv d hd
+
+theorem buffered_as_string_ok {tk : Tokenize} (hl : Lossless tk) (hv : TokValid tk) {d : Bytes} (hd : V d) (k : Nat) :
+    V (rawsOf ((tk d).1.drop k) ++ (tk d).2) :=
+  V_append (V_rawsOf fun t ht => hv d hd t (List.mem_of_mem_drop ht)) (V_rest hl hv hd)
+
+/-- every `String` the html stage builds is valid UTF-8: its output and its buffers (so every buffer handed to
+`leave` / `append_child` / `prepend_child` is a valid `String`, as its Rust type says) -/
+theorem stage_strings_valid {tk : Tokenize} (hl : Lossless tk) (hv : TokValid tk) (ev : Bytes → Bytes → Bool)
+    (s s' : HtmlSt) (x o : Bytes) (hs : HV s) (h : filterHtml tk ev s x = some (s', o)) : HV s' ∧ V o :=
+  filterHtml_V hl hv ev s s' x o hs h
+
+/-- `Tokenizer::next()` never returns `Err`, on any input, after any number of calls -/
+theorem next_never_err (bytes : Array Nat) (n : Nat) :
+    (Rio.Html.Tokenizer.nexts n (Rio.Html.Tokenizer.new bytes)).utf8Err = false :=
+  (Rio.C16.no_panic bytes n).2.2
 
 end Rio.C07
